@@ -1078,7 +1078,12 @@ impl World {
             }
         } else {
             match &res {
-                Err(e) => fails.push(("C08", format!("reload failed on intact storage: {}", msg_prefix(&e.to_string())))),
+                Err(e) => {
+                    fails.push(("C08", format!("reload failed on intact storage: {}", msg_prefix(&e.to_string()))));
+                    if !dirty && read_res(m) != read_before {
+                        fails.push(("C12", format!("reload with nothing new in storage failed ({}) and changed the visible document", msg_prefix(&e.to_string()))));
+                    }
+                }
                 Ok(()) => {
                     if !dirty && read_res(m) != read_before {
                         fails.push(("C12", "reload with nothing new in storage changed the visible document".into()));
